@@ -297,8 +297,14 @@ pub const RATES: [f64; 6] = [0.0, 0.1, 0.5, 0.9, 1.0, 0.25];
 ///  default — small/medium ranges, all kinds of (min,max) incl. inverted/zero
 ///  memo    — 3000..4000 opcodes so that the memo exceeds 255 entries (protocols with BINPUT)
 ///  small   — 0..12 opcodes (dense coverage of short programs and of the collapse phase)
+/// `--order desc`: protocols run 5,4,..,0 instead of 0,1,..,5 inside one process, so that state which
+/// wrongly outlives a generator (process-wide caches) is met in both directions
+pub static PROTO_DESC: std::sync::atomic::AtomicBool = std::sync::atomic::AtomicBool::new(false);
+
 pub fn sample_case(rng: &mut Rng, id: u64, profile: &str, unsafe_sel: &str) -> Case {
-    let proto = if profile == "big" { 4 + (id % 2) as usize } else { (id % 6) as usize };
+    let k = (id % 6) as usize;
+    let proto = if profile == "big" { 4 + (id % 2) as usize }
+        else if PROTO_DESC.load(std::sync::atomic::Ordering::Relaxed) { 5 - k } else { k };
     let unsafe_m = match unsafe_sel {
         "0" => false,
         "1" => true,
@@ -772,6 +778,9 @@ fn main() {
     let args: Vec<String> = std::env::args().skip(1).collect();
     // panics are caught per case; keep stderr quiet
     std::panic::set_hook(Box::new(|_| {}));
+    if arg_val(&args, "--order", "asc") == "desc" {
+        PROTO_DESC.store(true, std::sync::atomic::Ordering::Relaxed);
+    }
     match args.first().map(|s| s.as_str()) {
         Some("oracle") => cmd_oracle(&args[1..]),
         Some("trace") => cmd_trace(&args[1..]),
